@@ -5,7 +5,7 @@ OPTS = [dict(p_rel=1.0), dict(p_rel=1.0, max_m=3, max_t=3, p_nested=0.05), dict(
 
 
 def run(rep):
-    core_check(rep, "C02", [dict(o) for o in OPTS], 96, 1600, nontrivial_key="impl_with_conflict_rel")
+    core_check(rep, "C02", [dict(o) for o in OPTS], 64, 1600, nontrivial_key="impl_with_conflict_rel")
     rep.coverage["rule"] = ("random designs from vlib/coregen.py's grammar built with the real API, every valuation of the "
                             "control inputs (or random ones when there are many), both directions bound by TxnCoreTrace; "
                             "clauses ConflictNeverJoint (+SameTxn variant) on observed run signals of the related bodies; distinct_nontrivial = built designs with an add_conflict relation")
